@@ -200,6 +200,12 @@ class Twin:
             return self.numba
         if name == "math":
             return symmath
+        if name == "json":
+            from . import symio
+            return symio.json
+        if name == "struct":
+            from . import symio
+            return symio.struct
         if top == "opfython":
             mod = self._load(name)
             if fromlist:
